@@ -6,6 +6,7 @@ Driver for engine `gate` (property C11). One op per line in, one canonical line 
 
   cfg <tlsreq 0|1|2> <policy-hex> <cert 0|1> <authAddrs> <max-body-size> <max-msg-size>   new nsqd: resets broker and connections
   http <tlsListener 0|1>                                        the HTTP TLS gate of the current config
+  https <cert>                                                  a request on the HTTPS listener with this client certificate
   conn <id>                                                     a fresh connection
   c <id> <now> <ans> <CMD> …                                    one command on a connection
   cx <id> <now> <ans> <CMD> …                                   one command, then the client disconnects
@@ -160,6 +161,13 @@ def stepLine (st : DState) (line : String) : DState × String :=
   | ["http", l] =>
     match st.cfg, parseBool l with
     | some cfg, some l => (st, if httpGate cfg l = .forbidden403 then "403" else "routed")
+    | _, _ => (st, "bad-op")
+  | ["https", cert] =>
+    match st.cfg, parseCert cert with
+    | some cfg, some cert =>
+      (st, match handshake cfg.certPolicy cert with
+           | none => "hsfail"
+           | some _ => if httpGate cfg true = .forbidden403 then "403" else "routed")
     | _, _ => (st, "bad-op")
   | ["conn", id] =>
     match id.toNat? with
